@@ -13,6 +13,7 @@ var table = map[string]func(tier string) int{
 	"C02": checks.C02,
 	"C03": checks.C03,
 	"C04": checks.C04,
+	"C06": checks.C06,
 	"C07": checks.C07,
 	"C08": checks.C08,
 	"C09": checks.C09,
